@@ -49,9 +49,9 @@ func dkgScript[G algebra.PrimeGroupElement[G, S], S algebra.PrimeFieldElement[S]
 		var r network.Runner[*mpc.BaseShard[G, S]]
 		switch proto {
 		case "gennaro":
-			r, err = gennaro.NewRunner(sctx, kit.group, spec.lib, comp, prnd)
+			r, err = gennaro.NewRunner(sctx, kit.group, spec.libOf(id), comp, prnd)
 		case "canetti":
-			r, err = canetti.NewRunner(sctx, spec.lib, kit.group, prnd)
+			r, err = canetti.NewRunner(sctx, spec.libOf(id), kit.group, prnd)
 		default:
 			return nil, fmt.Errorf("unknown dkg %q", proto)
 		}
@@ -290,6 +290,7 @@ func C03Workloads() []harness.Workload {
 		dkgWorkload("vesta", 12, 1500),
 		dkgWorkload("bls12381g1", 8, 600),
 		dkgWorkload("bls12381g2", 4, 300),
+		{Name: "lockstep-dkg", Quick: 24, Thorough: 2000, Run: runLockstepDKG},
 		l17KeygenWorkload("lindell17-dealer", false, 8, 400),
 		l17KeygenWorkload("lindell17-dkg", true, 1, 24),
 	}
